@@ -19,12 +19,15 @@ RULE = ("Hypothesis draws a corpus string s (with the locale a loose autodetect 
         "languages=[lang]+region select the same locale and give identical results, reporting exactly loc; ambiguous numeric "
         "dates follow loc's own order. (D) several languages + one region that is valid for some of them only (loader caches "
         "reset first): the result equals the first non-None result of the per-language locale (lang-REGION when listed, lang "
-        "otherwise), and a regional code is never reported for another language's words. Non-trivial = at least two given "
+        "otherwise), and a regional code is never reported for another language's words. (E) entry points: dateparser.parse(s, "
+        "languages/locales/region...) equals DateDataParser(same arguments) for languages, locales, languages+region, region "
+        "alone; ambiguous numeric dates given with a region follow the order of the first applicable language's locale for that "
+        "region (English when no language is given). Non-trivial = at least two given "
         "languages parse s differently or one fails / the locale is regional; distinct on (string, language set, experiment).")
 ASSUMPTIONS = ["frozen clock, default settings (one settings hash per DEFAULT_LANGUAGES list)",
                "for a language whose lang-REGION code is not listed, the plain language is what 'selecting the region' can mean (the reported locale is lang-REGION exactly when that code is listed)",
                "experiment D resets LocaleDataLoader's class-level caches before the call so that an earlier clean load cannot mask a misbuilt locale"]
-ESSENTIAL = ["regional-own-name", "tz-word-string", "exp:A", "exp:B", "exp:C", "exp:D", "given-order", "default-languages", "region:partly-invalid", "differs-between-languages"]
+ESSENTIAL = ["regional-own-name", "tz-word-string", "exp:A", "exp:B", "exp:C", "exp:D", "exp:E", "entry:region", "entry:numeric-anchor", "given-order", "default-languages", "region:partly-invalid", "differs-between-languages"]
 
 NOW = dt.datetime(2015, 6, 15, 10, 30)
 _corpus = []
@@ -215,6 +218,42 @@ def _check(case, exp, s, cls):
             return fail("region-misapplied", "languages=%r region=%r -> %r; per-language locales %r give %r, expected %r"
                         % (langs, region, multi, seq, [singles[e] for e in seq], want), key)
         return {"ok": True, "key": key, "cls": cls}
+    if exp == "E":
+        # the convenience function and the class are two entry points with their own argument handling: both must honour the
+        # same selection (languages / locales / languages+region / region alone / nothing)
+        import dateparser
+        mode = case["mode"]
+        cls.append("entry:" + mode)
+        kw = {}
+        if mode in ("languages", "lang+region"):
+            kw["languages"] = case["langs"]
+        if mode == "locales":
+            kw["locales"] = [case["locale"]]
+        if mode in ("lang+region", "region"):
+            kw["region"] = case["region"]
+        by_class = _res(_parser(**kw).get_date_data(s))
+        top = dateparser.parse(s, **kw)
+        key = (s, mode, tuple(case.get("langs") or ()), case.get("locale"), case.get("region"), "E")
+        if top != by_class[0]:
+            return fail("toplevel-differs", "dateparser.parse(%r, **%r) -> %r, DateDataParser(**%r) -> %r" % (s, kw, top, kw, by_class), key)
+        if case.get("num") and mode in ("region", "lang+region", "locales"):
+            # absolute anchor for an ambiguous numeric date: the first applicable language (English when none is given) with
+            # that region decides the order
+            num = case["num"]
+            if mode == "locales":
+                loc = case["locale"]
+            else:
+                first = sorted(case["langs"], key=order.index)[0] if mode == "lang+region" else "en"
+                code = "%s-%s" % (first, case["region"])
+                loc = code if code in data.language_locale_dict().get(first, []) else first
+            lo = data.info(loc).get("date_order", "MDY")
+            if lo in ("DMY", "MDY"):
+                a, b, y = num
+                want = dt.datetime(y, b, a) if lo == "DMY" else dt.datetime(y, a, b)
+                cls.append("entry:numeric-anchor")
+                if top != want:
+                    return fail("region-order", "dateparser.parse(%r, **%r) -> %r; %s reads numeric dates %s: expected %r" % (s, kw, top, loc, lo, want), key)
+        return {"ok": True, "key": key, "cls": cls}
     raise ValueError(exp)
 
 
@@ -262,8 +301,33 @@ def cases(draw):
     e = corpus()[draw(st.integers(0, len(corpus()) - 1))]
     s, detected = e["s"], lang_of(e["locale"])
     order = data.language_order()
-    exp = draw(st.sampled_from(["A", "A", "A", "B", "C", "D", "A-tz", "A-num"]))
+    exp = draw(st.sampled_from(["A", "A", "A", "B", "C", "D", "A-tz", "A-num", "E"]))
     c = {"exp": exp, "s": s}
+    if exp == "E":
+        lld = data.language_locale_dict()
+        mode = draw(st.sampled_from(["languages", "locales", "lang+region", "region", "region"]))
+        c["mode"] = mode
+        numeric = draw(st.booleans()) or mode == "region"
+        if numeric:
+            a, b = draw(st.integers(1, 12)), draw(st.integers(1, 12))
+            y = draw(st.sampled_from([2016, 1999, 2031]))
+            c["s"] = "%02d%s%02d%s%d" % (a, "-/."[a % 3], b, "-/."[a % 3], y)
+            if a != b:
+                c["num"] = [a, b, y]
+        L = draw(st.sampled_from([x for x in ["en", "fr", "es", "pt", "de", "ar", "nl", "it", "ru", "sv", "zh"] if lld.get(x)])) if numeric else detected
+        if mode == "locales":
+            if not lld.get(L):
+                L = "en"
+            c["locale"] = draw(st.sampled_from(lld[L]))
+        elif mode == "region":
+            c["region"] = draw(st.sampled_from(["GB", "AU", "IN", "001", "150", "US", "CA", "ZA", "NZ", "IE", "FR", "DE", "ZZ", "BE", "SG"]))
+        else:
+            others = draw(st.lists(st.sampled_from(order[:30]), min_size=0, max_size=2, unique=True))
+            c["langs"] = [L] + [o for o in others if o != L]
+            if mode == "lang+region":
+                regions = sorted({loc[len(L) + 1:] for loc in lld.get(L, []) if "-" not in loc[len(L) + 1:]}) or ["US"]
+                c["region"] = draw(st.one_of(st.sampled_from(regions), st.sampled_from(["GB", "CA", "ZZ", "001"])))
+        return c
     if exp == "A-num":
         # numeric dates that only some date orders can read, for language lists that mix DMY / MDY / YMD languages and 'tl'
         # (which has no order of its own and inherits whatever order is in force)
